@@ -25,9 +25,11 @@ class Wire:
         self.log = {"a": bytearray(), "b": bytearray()}
         self.stop = False
         self.closing = threading.Lock()
+        self.link_in_enable = 0.0   # > 0: the link comes up INSIDE the enable() of the end enabled last, which then takes that long to return
         for name, conn in self.ends.items():
             conn.send_data = self._sender(name, conn)
             conn.disable = self._disabler(name, conn)
+            conn.enable = self._enabler(name, conn)
         self.threads = [threading.Thread(target=self._pump, args=(s, d), daemon=True, name=f"_wire_{s}{d}") for s, d in (("a", "b"), ("b", "a"))]
         for t in self.threads:
             t.start()
@@ -40,6 +42,16 @@ class Wire:
             self.queues[name].put(bytes(data))
             return True
         return send_data
+
+    def _enabler(self, name, conn):
+        def enable():
+            conn.enabled = True
+            if self.link_in_enable > 0 and all(c.enabled for c in self.ends.values()) and not any(c.connected for c in self.ends.values()):
+                # a peer that was waiting connects at once (TcpClientConnection / the listener thread do this on their own threads);
+                # the enabling thread itself is slow to come back from enable()
+                self.connect()
+                time.sleep(self.link_in_enable)
+        return enable
 
     def _disabler(self, name, conn):
         def disable():
@@ -158,14 +170,17 @@ class Pair:
         self.wire.shutdown()
 
 
-def establish_case(rnd, host_active, first):
-    """enable in the given order, connect, wait for both to communicate; returns the case literal and observations"""
+def establish_case(rnd, host_active, first, link_in_enable=0.0):
+    """enable in the given order, connect (after both enable() calls returned, or inside the second one), wait for both to
+    communicate; returns the case literal and observations"""
     pr = Pair(rnd, host_active)
+    pr.wire.link_in_enable = link_in_enable
     try:
         order = [pr.host, pr.equip] if first == "host" else [pr.equip, pr.host]
         for h in order:
             h.enable()
-        pr.wire.connect()
+        if not link_in_enable:
+            pr.wire.connect()
         ok = pr.both_communicating()
         # the peer's S1F14 for the own S1F13 may still be on its way: wait until the wire has been quiet for a while
         deadline = time.monotonic() + 5
@@ -185,7 +200,7 @@ def establish_case(rnd, host_active, first):
     en = {("host", True): "EnA", ("host", False): "EnP", ("equip", True): "EnP", ("equip", False): "EnA"}
     olit = "[" + ";".join(en[(who, active_is_host)] for who in ((first, "equip" if first == "host" else "host"))) + "]"
     lit = "{| v_order := " + olit + "; v_a2p := [" + ";".join(k for k in a if not k.startswith("other")) + "]; v_p2a := [" + ";".join(k for k in b if not k.startswith("other")) + "]; v_goal := " + ("true" if ok and sel else "false") + " |}"
-    return lit, {"host_active": host_active, "first": first, "communicating": ok, "selected": sel, "active_sent": a, "passive_sent": b}
+    return lit, {"host_active": host_active, "first": first, "link_up_inside_enable_seconds": link_in_enable, "communicating": ok, "selected": sel, "active_sent": a, "passive_sent": b}
 
 
 def service_case(rnd, host_active):
@@ -255,6 +270,12 @@ def service_case(rnd, host_active):
         want.append((3, [(10, 124), (20, 77)]))
         if pr.events != want:
             problems.append(f"after a second trigger the host has received {pr.events!r}")
+        # several events in one call: those that are not enabled / not linked / unknown are skipped, the others still reported
+        e.trigger_collection_events([2, 999, 3])
+        until(lambda: len(pr.events) >= 3)
+        want.append((3, [(10, 124), (20, 77)]))
+        if pr.events != want:
+            problems.append(f"trigger_collection_events([2, 999, 3]) with only 3 subscribed: the host has received {pr.events!r}")
         # a second report on the same event: the host must see each report with its own variables
         call(h.subscribe_collection_event, 3, [20], 4711)
         del pr.reports[:]
@@ -331,10 +352,12 @@ def run(tier, replay=None):
     rnd = common.rng("c20")
     reps = 3 if tier == "quick" else 40
     wedged, lits, raws = [], [], []
-    for _ in range(reps):
+    for rep in range(reps):
         for host_active in (True, False):
             for first in ("host", "equip"):
-                r = common.guarded(lambda host_active=host_active, first=first: establish_case(rnd, host_active, first), f"establish: host_active={host_active}, first enabled={first}", wedged, 60.0)
+                lie = 0.3 if rep % 3 == 1 else 0.0   # every third round: the link is up and selected before the second enable() returns
+                r = common.guarded(lambda host_active=host_active, first=first, lie=lie: establish_case(rnd, host_active, first, lie),
+                                   f"establish: host_active={host_active}, first enabled={first}, link up inside enable()={lie}", wedged, 60.0)
                 if r is not None:
                     lits.append(r[0])
                     raws.append(r[1])
